@@ -204,6 +204,16 @@ def arith(op, a, b):
         q = z3.ToReal(z3.ToInt(ea / eb))
         return Sym(ea - q * eb)
     if op == "**":
+        if isinstance(b, Sym) and b.is_int:
+            bv = simp_int(b.e)
+            if bv is not None:
+                b = bv
+        elif isinstance(b, Sym) and b.is_real:
+            sv = z3.simplify(b.e)
+            if z3.is_rational_value(sv) and sv.denominator_as_long() == 1:
+                b = sv.numerator_as_long()
+            elif z3.is_rational_value(sv) and sv.numerator_as_long() == 1 and sv.denominator_as_long() == 2:
+                b = 0.5
         if isinstance(b, int) and not isinstance(b, bool) and 0 <= b <= 8:
             r = z3.IntVal(1) if z3.is_int(ea) else z3.RealVal(1)
             for _ in range(b):
